@@ -19,33 +19,42 @@ Pos(i, v) == [k |-> "pos", i |-> i, v |-> v]
 In(v) == [k |-> "input", v |-> v]
 Perm == [k |-> "perm"]      \* the first two positional arguments swapped
 Fmt == Val("-F", "fasta")
+\* the neighbour writes to "-o <file><ext>": the extension selects the output format
+\* (seqio.Detect), so it changes the output although no option differs
+Ext(v) == [k |-> "ext", v |-> v]
+\* both invocations carry option arguments, a for the probe and b for the neighbour (e.g. the same words
+\* split differently over the values of a list-valued option)
+Args2(a, b) == [k |-> "args2", a |-> a, b |-> b]
 
 C(cmd, pos, input, dims) == [cmd |-> cmd, pos |-> pos, input |-> input, dims |-> dims]
 
 Commands == <<
-  C("annotate", <<"{file:table1}">>, "phix", <<Pos(1, "{file:table2}"), In("part"), Fmt>>),
-  C("clear", <<>>, "phix", <<In("part"), Fmt>>),
-  C("complement", <<>>, "phix", <<In("part"), Fmt>>),
+  C("annotate", <<"{file:table1}">>, "phix", <<Pos(1, "{file:table2}"), In("part"), Fmt, Ext(".fasta")>>),
+  C("clear", <<>>, "phix", <<In("part"), Fmt, Ext(".fasta")>>),
+  C("complement", <<>>, "phix", <<In("part"), Fmt, Ext(".fasta")>>),
   C("define", <<"misc_feature", "10..20">>, "phix", <<Pos(1, "gene"), Pos(2, "30..40"), Val("-q", "note=x"), Val2("-q", "note=x", "note=y"),
        \* option values are byte strings: {byte:XX} is replaced by that raw byte (not valid UTF-8)
-       Val2("-q", "note=a{byte:ff}b", "note=a{byte:fe}b"), In("part"), Fmt>>),
-  C("delete", <<"CDS">>, "phix", <<Flag("-e"), Pos(1, "gene"), In("part"), Fmt>>),
-  C("extract", <<"CDS">>, "phix", <<Flag("-v"), Pos(1, "gene"), In("part"), Fmt, Val2("-F", "fasta", "genbank")>>),
+       Val2("-q", "note=a{byte:ff}b", "note=a{byte:fe}b"),
+       Args2(<<"-q", "note=putative", "-q", "kinase">>, <<"-q", "note=putative kinase">>), In("part"), Fmt, Ext(".fasta")>>),
+  C("delete", <<"CDS">>, "phix", <<Flag("-e"), Pos(1, "gene"), In("part"), Fmt, Ext(".fasta")>>),
+  C("extract", <<"CDS">>, "phix", <<Flag("-v"), Pos(1, "gene"), In("part"), Fmt, Ext(".fasta"), Val2("-F", "fasta", "genbank")>>),
   C("extract", <<"1..10", "21..40">>, "phix", <<Perm, Pos(2, "31..50")>>),
   C("select", <<"CDS", "gene">>, "phix", <<Perm, Pos(2, "source")>>),
-  C("infix", <<"^+10", "{file:part}">>, "guest", <<Flag("-e"), Pos(1, "^+20"), Pos(2, "{file:ecoli}"), In("guest2"), Fmt>>),
-  C("insert", <<"^+10", "@acgtacgt">>, "phix", <<Flag("-e"), Pos(1, "^+20"), Pos(2, "@ggccggcc"), In("part"), Fmt>>),
-  C("join", <<>>, "two", <<Flag("-c"), In("phix"), Fmt>>),
-  C("pick", <<"1">>, "two", <<Flag("-f"), Pos(1, "2"), In("phix"), Fmt>>),
-  C("query", <<>>, "phix", <<Val("-n", "gene"), Val2("-n", "gene", "product"), Val("-d", ";"), Val2("-d", ";", ":"), Val("-t", "|"), Val2("-t", "|", "+"), Flag("-H"), Flag("--source"), Flag("-I"),
+  C("infix", <<"^+10", "{file:part}">>, "guest", <<Flag("-e"), Pos(1, "^+20"), Pos(2, "{file:ecoli}"), In("guest2"), Fmt, Ext(".fasta")>>),
+  C("insert", <<"^+10", "@acgtacgt">>, "phix", <<Flag("-e"), Pos(1, "^+20"), Pos(2, "@ggccggcc"), In("part"), Fmt, Ext(".fasta")>>),
+  C("join", <<>>, "two", <<Flag("-c"), In("phix"), Fmt, Ext(".fasta")>>),
+  C("pick", <<"1">>, "two", <<Flag("-f"), Pos(1, "2"), In("phix"), Fmt, Ext(".fasta")>>),
+  C("query", <<>>, "phix", <<Val("-n", "gene"), Val2("-n", "gene", "product"), Val("-d", ";"), Val2("-d", ";", ":"), Val("-t", "|"), Val2("-t", "|", "+"),
+                             Args2(<<"--empty", "-n", "gene", "-n", "product">>, <<"--empty", "-n", "gene product">>), Flag("-H"), Flag("--source"), Flag("-I"),
                              Flag("-K"), Flag("-L"), Flag("--empty"), In("part")>>),
-  C("repair", <<>>, "phix", <<In("part"), Fmt>>),
-  C("reverse", <<>>, "phix", <<In("part"), Fmt, Val2("-F", "fasta", "genbank")>>),
-  C("rotate", <<"^+10">>, "phix", <<Pos(1, "^+20"), In("pbat"), Fmt>>),
-  C("search", <<"@atgc">>, "phix", <<Pos(1, "@ggcc"), Val("-k", "gene"), Val2("-k", "gene", "CDS"), Val2("-q", "note=x", "note=y"), Val("-q", "note=x"), Flag("-e"), Flag("--no-complement"), In("part"), Fmt>>),
-  C("select", <<"CDS">>, "phix", <<Pos(1, "gene"), Val("-s", "forward"), Val("-s", "reverse"), Val2("-s", "forward", "reverse"), Flag("-v"), In("part"), Fmt, Val2("-F", "fasta", "genbank")>>),
-  C("sort", <<>>, "two", <<Flag("-r"), In("phix"), Fmt>>),
-  C("split", <<"CDS">>, "phix", <<Pos(1, "gene"), In("part"), Fmt>>),
+  C("repair", <<>>, "phix", <<In("part"), Fmt, Ext(".fasta")>>),
+  C("reverse", <<>>, "phix", <<In("part"), Fmt, Ext(".fasta"), Val2("-F", "fasta", "genbank")>>),
+  C("rotate", <<"^+10">>, "phix", <<Pos(1, "^+20"), In("pbat"), Fmt, Ext(".fasta")>>),
+  C("search", <<"@atgc">>, "phix", <<Pos(1, "@ggcc"), Val("-k", "gene"), Val2("-k", "gene", "CDS"), Val2("-q", "note=x", "note=y"), Val("-q", "note=x"),
+                                 Args2(<<"-q", "note=a", "-q", "b">>, <<"-q", "note=a b">>), Flag("-e"), Flag("--no-complement"), In("part"), Fmt, Ext(".fasta")>>),
+  C("select", <<"CDS">>, "phix", <<Pos(1, "gene"), Val("-s", "forward"), Val("-s", "reverse"), Val2("-s", "forward", "reverse"), Flag("-v"), In("part"), Fmt, Ext(".fasta"), Val2("-F", "fasta", "genbank")>>),
+  C("sort", <<>>, "two", <<Flag("-r"), In("phix"), Fmt, Ext(".fasta")>>),
+  C("split", <<"CDS">>, "phix", <<Pos(1, "gene"), In("part"), Fmt, Ext(".fasta")>>),
   C("summary", <<>>, "phix", <<Flag("-F"), Flag("-Q"), In("part")>>),
   \* failing inputs: a truncated record makes the command fail
   C("reverse", <<>>, "trunc", <<In("phix")>>),
@@ -54,21 +63,27 @@ Commands == <<
 >>
 
 \* an invocation: [cmd, args, input]
-Probe(c, d) == IF d.k = "val2" THEN [cmd |-> c.cmd, args |-> <<d.s, d.a>> \o c.pos, input |-> c.input]
-               ELSE [cmd |-> c.cmd, args |-> c.pos, input |-> c.input]
+Inv(cmd, args, input) == [cmd |-> cmd, args |-> args, input |-> input, ext |-> ""]
+Probe(c, d) == IF d.k = "val2" THEN Inv(c.cmd, <<d.s, d.a>> \o c.pos, c.input)
+               ELSE IF d.k = "args2" THEN Inv(c.cmd, d.a \o c.pos, c.input)
+               ELSE Inv(c.cmd, c.pos, c.input)
 Neighbour(c, d) ==
-  CASE d.k = "val2"  -> [cmd |-> c.cmd, args |-> <<d.s, d.b>> \o c.pos, input |-> c.input]
-    [] d.k = "flag"  -> [cmd |-> c.cmd, args |-> <<d.s>> \o c.pos, input |-> c.input]
-    [] d.k = "val"   -> [cmd |-> c.cmd, args |-> <<d.s, d.v>> \o c.pos, input |-> c.input]
-    [] d.k = "pos"   -> [cmd |-> c.cmd, args |-> [c.pos EXCEPT ![d.i] = d.v], input |-> c.input]
-    [] d.k = "perm"  -> [cmd |-> c.cmd, args |-> [c.pos EXCEPT ![1] = c.pos[2], ![2] = c.pos[1]], input |-> c.input]
-    [] d.k = "input" -> [cmd |-> c.cmd, args |-> c.pos, input |-> d.v]
+  CASE d.k = "val2"  -> Inv(c.cmd, <<d.s, d.b>> \o c.pos, c.input)
+    [] d.k = "flag"  -> Inv(c.cmd, <<d.s>> \o c.pos, c.input)
+    [] d.k = "val"   -> Inv(c.cmd, <<d.s, d.v>> \o c.pos, c.input)
+    [] d.k = "pos"   -> Inv(c.cmd, [c.pos EXCEPT ![d.i] = d.v], c.input)
+    [] d.k = "perm"  -> Inv(c.cmd, [c.pos EXCEPT ![1] = c.pos[2], ![2] = c.pos[1]], c.input)
+    [] d.k = "input" -> Inv(c.cmd, c.pos, d.v)
+    [] d.k = "ext"   -> [Inv(c.cmd, c.pos, c.input) EXCEPT !.ext = d.v]
+    [] d.k = "args2" -> Inv(c.cmd, d.b \o c.pos, c.input)
 
 RECURSIVE JoinS(_)
 JoinS(ss) == IF ss = <<>> THEN "" ELSE Head(ss) \o " " \o JoinS(Tail(ss))
-KeyOf(inv) == inv.cmd \o " " \o JoinS(inv.args) \o "< " \o inv.input
+KeyOf(inv) == inv.cmd \o " " \o JoinS(inv.args) \o "< " \o inv.input \o (IF inv.ext = "" THEN "" ELSE " -o *" \o inv.ext)
 
-Run(inv, sink, nocache) == [cmd |-> inv.cmd, args |-> inv.args, input |-> inv.input, sink |-> sink, nocache |-> nocache, key |-> KeyOf(inv)]
+\* an invocation with an extension always writes to a file of that extension
+Run(inv, sink, nocache) == [cmd |-> inv.cmd, args |-> inv.args, input |-> inv.input,
+                            sink |-> IF inv.ext = "" THEN sink ELSE "file" \o inv.ext, nocache |-> nocache, key |-> KeyOf(inv)]
 
 \* histories: sequences over {P,N} x {stdout,file}, length 1..HLen
 StepSet == {<<w, s>> : w \in {"P", "N"}, s \in {"stdout", "file"}}
